@@ -730,7 +730,7 @@ Proof.
   intros Hs (NB & NBP) EM. destruct (cs_read_full_source rf rp fo po k sx m h Hs NB NBP) as (f0 & F). exists f0. intros f Hf.
   destruct (F f Hf) as (st & fin & C & _ & Out & _). exists st, fin. split; [exact C|]. intros E.
   destruct Out as [(_ & _ & (s1 & va & s2 & v & s3 & s' & A1 & A2 & A3 & A4 & A5 & A6) & _)|(Hn & _)]; [|unfold SBDF_OK in E; lia].
-  pose proof (cs_end_intro sx s1 va s2 v s3 s' A1 A2 A3 A4 A5) as CE. rewrite (cs_end_of_model sx c sM EM) in CE. assert (sM = s') by congruence. subst s'. exact A6.
+  pose proof (cs_end_intro sx s1 va s2 v s3 s' A1 A2 A3 (proj1 A4) A5) as CE. rewrite (cs_end_of_model sx c sM EM) in CE. assert (sM = s') by congruence. subst s'. exact A6.
 Qed.
 
 (* ================================================================== the model's readers on the encodings of well-formed slices (for the corollaries in Props/) *)
@@ -1134,4 +1134,41 @@ Proof.
   destruct Out as [(_ & _ & (s1 & s2 & s' & A1 & A2 & A3 & A4) & _)|(Hneg & _)]; [|unfold SBDF_OK in E; lia].
   destruct (ts_pos_model n sub sx t sM ltac:(lia) EM) as (x1 & x2 & B1 & B2 & B3).
   assert (x1 = s1) by congruence. subst x1. assert (x2 = s2) by congruence. subst x2. assert (s' = sM) by congruence. subst s'. exact A4.
+Qed.
+
+(* ================================================================== every successful read is one the L1 model accepts *)
+Lemma props_end_rrep : forall fuel n s s', (List.length s <= List.length fuel)%nat -> Forall byte s -> 0 <= n -> props_end (Z.to_nat n) s = Some s' ->
+  exists ps, rrep fuel n (read_prop false None) s = Ok (ps, s').
+Proof.
+  induction fuel as [|x fuel IH]; intros n s s' Hl Hs Hn E; cbn [rrep].
+  - destruct (n <=? 0) eqn:En; [replace (Z.to_nat n) with 0%nat in E by lia; cbn [props_end] in E; injection E as <-; exists []; reflexivity|].
+    destruct s; [|cbn [List.length] in Hl; lia]. replace (Z.to_nat n) with (S (Z.to_nat (n - 1))) in E by lia. cbn [props_end] in E.
+    assert (X : read_string false None [] = Err SBDF_ERROR_IO) by reflexivity. rewrite X in E. discriminate E.
+  - destruct (n <=? 0) eqn:En; [replace (Z.to_nat n) with 0%nat in E by lia; cbn [props_end] in E; injection E as <-; exists []; reflexivity|].
+    replace (Z.to_nat n) with (S (Z.to_nat (n - 1))) in E by lia. cbn [props_end] in E. unfold read_prop at 1. unfold rd_bind, rret.
+    destruct (read_string false None s) as [[nm s1]|] eqn:E1; [|discriminate]. destruct (shr1_read_string s nm s1 Hs E1) as (Hs1 & Hl1).
+    destruct (Va.va_read false None s1) as [[va s2]|] eqn:E2; [|discriminate]. destruct (shr1_va_read s1 va s2 Hs1 E2) as (Hs2 & Hl2).
+    destruct (IH (n - 1) s2 s' ltac:(cbn [List.length] in Hl; lia) Hs2 ltac:(lia) E) as (ps & R). rewrite R. eexists. reflexivity.
+Qed.
+
+Lemma cs_model_of_end sx s1 va s2 v s3 s' : Forall byte sx -> sec_expect SBDF_COLUMNSLICE_SECTIONID sx = Ok (tt, s1) -> Va.va_read false None s1 = Ok (va, s2) -> read_int32 false s2 = Ok (v, s3) ->
+  0 <= v <= 134217727 -> props_end (Z.to_nat v) s3 = Some s' -> exists c, Slice.cs_read false None sx = Ok (c, s').
+Proof.
+  intros Hs E1 E2 E3 Hv E5. unfold Slice.cs_read, rd_bind, rfail, rret, ralloc, alloc_ok. rewrite E1, E2, E3.
+  replace (v <? 0) with false by lia. change (INT_MAX / 16) with 134217727. replace (134217727 <? v) with false by lia. unfold rrepeat.
+  pose proof (proj1 (shr_sec_expect _ sx tt s1 Hs E1)) as Hs1. pose proof (proj1 (shr1_va_read s1 va s2 Hs1 E2)) as Hs2. pose proof (proj1 (shr1_read_int32 s2 v s3 Hs2 E3)) as Hs3.
+  destruct (props_end_rrep s3 v s3 s' (Nat.le_refl _) Hs3 ltac:(lia) E5) as (ps & R). rewrite R. eexists. reflexivity.
+Qed.
+
+(* whatever the allocation schedule: if the source's sbdf_cs_read succeeds, the L1 model's cs_read accepts the stream and ends
+   where the source ended - no stream is read successfully by the code that the model refuses *)
+Theorem cs_read_success_is_the_models rf rp fo po k sx m h : Forall byte sx -> cs_nobit sx ->
+  exists f0, forall f, (f0 <= f)%nat -> exists st fin,
+    callC prog_env f prog_sbdf_cs_read [VPtr rf fo; VPtr rp po] m k sx h = OReturn (VInt st) fin /\
+    (st = SBDF_OK -> exists c sM, Slice.cs_read false None sx = Ok (c, sM) /\ lookup strm_var (vars fin) = Some (VBytes sM)).
+Proof.
+  intros Hs (NB & NBP). destruct (cs_read_full_source rf rp fo po k sx m h Hs NB NBP) as (f0 & F). exists f0. intros f Hf.
+  destruct (F f Hf) as (st & fin & C & _ & Out & _). exists st, fin. split; [exact C|]. intros E.
+  destruct Out as [(_ & _ & (s1 & va & s2 & v & s3 & s' & A1 & A2 & A3 & A4 & A5 & A6) & _)|(Hn & _)]; [|unfold SBDF_OK in E; lia].
+  destruct (cs_model_of_end sx s1 va s2 v s3 s' Hs A1 A2 A3 A4 A5) as (c & CM). exists c, s'. split; [exact CM|exact A6].
 Qed.
